@@ -1025,6 +1025,304 @@ def rule_py_branch(chk, tree):
         chk.ok("py-branch", "NLDFSplinePlan transform is direction-independent (identity)", nontrivial=False)
 
 
+# ----------------------------------------------------------------------------
+# round 11: numpy-level twins (forward-mode / reverse-mode routines written in numpy)
+# ----------------------------------------------------------------------------
+TWIN_FILES = [PL, NG, LI, LC, SX]
+TWIN_NAME_RULES = [("eval_rho_", "eval_vxc_"), ("get_feat", "get_vxc"), ("get_features", "get_vxc"),
+                   ("get_features", "get_vxc_"), ("_perform_fwd_", "_perform_bwd_"),
+                   ("get_features", "get_potential"), ("_cache_l1_", "_cache_ld_")]
+
+
+def _einsum_sig(sub):
+    """(inputs, output) of an einsum subscript string with index letters renamed in order of first
+    occurrence; implicit mode: output = letters occurring once, alphabetically (numpy's rule)"""
+    sub = sub.replace(" ", "")
+    if "->" in sub:
+        ins, out = sub.split("->")
+        implicit = False
+    else:
+        ins, implicit = sub, True
+        letters = [c for c in ins if c.isalpha()]
+        out = "".join(sorted(c for c in set(letters) if letters.count(c) == 1))
+        if "..." in ins:
+            out = "..." + out
+    ren = {}
+    for c in ins:
+        if c.isalpha() and c not in ren:
+            ren[c] = chr(ord("a") + len(ren))
+    f = lambda t: "".join(ren.get(c, c) for c in t)
+    return f(ins), f(out), implicit
+
+
+def rule_py_einsum(chk, tree):
+    """an einsum written without `->` must produce what its explicit siblings (same input
+    subscripts, the other differentiation mode of the same contraction) produce"""
+    calls = []
+    for rel in TWIN_FILES:
+        mod = tree.py(rel)
+        for n in ast.walk(mod):
+            if isinstance(n, ast.Call) and M._callee_name(n) == "einsum" and n.args \
+                    and isinstance(n.args[0], ast.Constant) and isinstance(n.args[0].value, str):
+                ins, out, imp = _einsum_sig(n.args[0].value)
+                fn = None
+                x = n
+                while x is not None and not isinstance(x, ast.FunctionDef):
+                    x = getattr(x, "_parent", None)
+                calls.append((rel, x.name if x is not None else "<module>", n, ins, out, imp))
+    chk.count("einsum calls with literal subscripts", len(calls))
+    explicit = {}
+    for rel, fn, n, ins, out, imp in calls:
+        if not imp:
+            explicit.setdefault(ins, set()).add(out)
+    for rel, fn, n, ins, out, imp in calls:
+        if not imp:
+            continue
+        sib = explicit.get(ins)
+        inst = "%s:%s einsum(%r)" % (rel, fn, n.args[0].value)
+        if sib and out not in sib:
+            chk.violation("py-einsum-sibling", rel, fn, ast.unparse(n), n.lineno,
+                          "einsum(%r) has no `->`: numpy sums over every repeated index and returns %s, while the same "
+                          "contraction is written with output %s elsewhere (the other differentiation mode of this "
+                          "quantity): the %s is then broadcast where a per-element array is expected" % (
+                              n.args[0].value, "a scalar" if out == "" else "indices %r" % out,
+                              sorted("->" + o for o in sib), "scalar" if out == "" else "result"), instance=inst)
+        else:
+            chk.ok("py-einsum-sibling", inst, nontrivial=bool(sib))
+    for ins, outs in sorted(explicit.items()):
+        chk.ok("py-einsum-sibling", "explicit %s -> %s" % (ins, sorted(outs)), nontrivial=False)
+
+
+def _twins(mod):
+    """(class, forward def, backward def) by naming convention inside one class"""
+    out = []
+    for c in mod.body:
+        if not isinstance(c, ast.ClassDef):
+            continue
+        ms = {m.name: m for m in c.body if isinstance(m, ast.FunctionDef)}
+        for a, b in TWIN_NAME_RULES:
+            for nm, m in ms.items():
+                if nm.startswith(a):
+                    tw = b + nm[len(a):]
+                    if tw in ms and tw != nm and (a != "get_feat" or nm == "get_feat"):
+                        out.append((c.name, m, ms[tw]))
+    return out
+
+
+def _size_reads(fn):
+    """local = <expr>.shape[k]  ->  {(local, expr text): k}"""
+    out = {}
+    for n in ast.walk(fn):
+        if isinstance(n, ast.Assign) and len(n.targets) == 1 and isinstance(n.targets[0], ast.Name):
+            v = n.value
+            if isinstance(v, ast.Subscript) and isinstance(v.value, ast.Attribute) and v.value.attr == "shape" \
+                    and isinstance(v.slice, (ast.Constant, ast.UnaryOp)):
+                try:
+                    k = ast.literal_eval(v.slice)
+                except Exception:
+                    continue
+                out[(n.targets[0].id, ast.unparse(v.value.value))] = (k, n)
+    return out
+
+
+def rule_py_axis(chk, tree):
+    """twins read the same extent from the same axis of the same array"""
+    n_tw = 0
+    for rel in TWIN_FILES:
+        mod = tree.py(rel)
+        for cname, f, b in _twins(mod):
+            n_tw += 1
+            rf, rb = _size_reads(f), _size_reads(b)
+            for key in sorted(set(rf) & set(rb)):
+                (kf, nf), (kb, nb) = rf[key], rb[key]
+                inst = "%s.%s / %s: %s = %s.shape[..]" % (cname, f.name, b.name, key[0], key[1])
+                if kf != kb:
+                    chk.violation("py-axis", rel, "%s.%s" % (cname, b.name), ast.unparse(nb), nb.lineno,
+                                  "`%s` is read from axis %d of `%s` here but from axis %d in the twin %s (line %d): the "
+                                  "two directions disagree about the extent whenever the array is not square" % (
+                                      key[0], kb, key[1], kf, f.name, nf.lineno), instance=inst)
+                else:
+                    chk.ok("py-axis", inst)
+    chk.count("numpy-level twins found by name", n_tw)
+
+
+def rule_py_extent(chk, tree):
+    """`assert len(A[0]) // c == E` ... `for i in range(E'): ... A[:, c*i : c*i + c]`  =>  E' is E"""
+    mod = tree.py(PL)
+    for fn in ast.walk(mod):
+        if not isinstance(fn, ast.FunctionDef):
+            continue
+        est = {}   # array text -> (c, extent text)
+        for st in fn.body:
+            if isinstance(st, ast.Assert) and isinstance(st.test, ast.Compare) and len(st.test.ops) == 1 \
+                    and isinstance(st.test.ops[0], ast.Eq):
+                l, r = st.test.left, st.test.comparators[0]
+                if isinstance(l, ast.BinOp) and isinstance(l.op, ast.FloorDiv) and isinstance(l.right, ast.Constant) \
+                        and isinstance(l.left, ast.Call) and M._callee_name(l.left) == "len" and l.left.args \
+                        and isinstance(l.left.args[0], ast.Subscript):
+                    est[ast.unparse(l.left.args[0].value)] = (l.right.value, M.canon_py(r, {}))
+        if not est:
+            continue
+        for st in fn.body:
+            if isinstance(st, ast.For) and isinstance(st.iter, ast.Call) and M._callee_name(st.iter) == "range" \
+                    and len(st.iter.args) == 1 and isinstance(st.target, ast.Name):
+                iv = st.target.id
+                for x in ast.walk(st):
+                    if isinstance(x, ast.Subscript) and ast.unparse(x.value) in est and isinstance(x.slice, ast.Tuple) \
+                            and isinstance(x.slice.elts[-1], ast.Slice) and x.slice.elts[-1].lower is not None \
+                            and iv in {y.id for y in ast.walk(x.slice.elts[-1].lower) if isinstance(y, ast.Name)}:
+                        c, ext = est[ast.unparse(x.value)]
+                        got = M.canon_py(st.iter.args[0], {})
+                        inst = "%s: loop over blocks of %s" % (fn.name, ast.unparse(x.value))
+                        if got != ext:
+                            chk.violation("py-extent", PL, fn.name, "for %s in %s" % (iv, ast.unparse(st.iter)), st.lineno,
+                                          "the function asserts that `%s` holds %s blocks of %d columns but loops over "
+                                          "range(%s): blocks are dropped (or empty slices cached), so the reverse-mode "
+                                          "routine that indexes the cache is not the transpose of the forward one" % (
+                                              ast.unparse(x.value), ext, c, got), instance=inst)
+                        else:
+                            chk.ok("py-extent", inst)
+                        break
+
+
+def _cond_attr_defs(mod, cls):
+    """self.X assigned in __init__ (same-module MRO) -> list of condition forms (None = unconditional)"""
+    out = {}
+    seen, todo = set(), [cls]
+    while todo:
+        c = todo.pop(0)
+        if c in seen:
+            continue
+        seen.add(c)
+        for st in mod.body:
+            if isinstance(st, ast.ClassDef) and st.name == c:
+                todo += [b.id for b in st.bases if isinstance(b, ast.Name)]
+                for m in st.body:
+                    if isinstance(m, ast.FunctionDef) and m.name == "__init__":
+                        def walk(stmts, conds):
+                            for s_ in stmts:
+                                if isinstance(s_, ast.If):
+                                    walk(s_.body, conds + [s_.test])
+                                    walk(s_.orelse, conds + [ast.UnaryOp(op=ast.Not(), operand=s_.test)])
+                                elif isinstance(s_, (ast.For, ast.With)):
+                                    walk(s_.body, conds)
+                                elif isinstance(s_, ast.Assign):
+                                    for t in s_.targets:
+                                        if isinstance(t, ast.Attribute) and isinstance(t.value, ast.Name) and t.value.id == "self":
+                                            if isinstance(s_.value, ast.Constant) and s_.value.value is None:
+                                                continue
+                                            out.setdefault(t.attr, []).append(list(conds))
+                        walk(m.body, [])
+    return out
+
+
+def _disjuncts(test):
+    if isinstance(test, ast.BoolOp) and isinstance(test.op, ast.Or):
+        return [d for v in test.values for d in _disjuncts(v)]
+    return [M.guard_form(test, {})]
+
+
+def rule_py_guarded_attr(chk, tree):
+    """an attribute that __init__ builds only under a condition is used by the traced compositions
+    only under (a disjunct of) that condition"""
+    for label, rel, fq, bq, spec in PY_PAIRS:
+        if rel != LI:
+            continue
+        mod = tree.py(rel)
+        cls = fq.split(".")[0]
+        defs = _cond_attr_defs(mod, cls)
+        for qn, consts in ((fq, spec.consts_f), (bq, spec.consts_b)):
+            fn = M.py_find_def(mod, qn)
+            if fn is None:
+                raise core.AnalysisError("%s vanished" % qn)
+            try:
+                tr = M.Tracer(spec, mod, fn, consts, lambda nm: M.py_resolve(mod, cls, nm))
+            except M.Irreducible as e:
+                raise core.AnalysisError("%s: %s" % (qn, e))
+            for e in tr.events:
+                gs = {g for k, g in e.guards if k == "if"}
+                for k, v in e.statics.items():
+                    if not (isinstance(v, str) and v.startswith("self.") and v[5:].isidentifier()):
+                        continue
+                    attr = v[5:]
+                    sites = defs.get(attr)
+                    if not sites or any(not c for c in sites):
+                        continue      # unknown or unconditionally built
+                    inst = "%s: self.%s in %s" % (qn, attr, e.text[:60])
+                    ok = False
+                    for conds in sites:
+                        if all(any(d in gs for d in _disjuncts(c)) for c in conds):
+                            ok = True
+                    if ok:
+                        chk.ok("py-guarded-attr", inst)
+                    else:
+                        chk.violation("py-guarded-attr", rel, qn, e.text, e.line,
+                                      "`self.%s` is only built in __init__ when %s, but this call uses it under %s: in the "
+                                      "other configurations both the forward and the backward projection fail on it" % (
+                                          attr, " / ".join(" and ".join(ast.unparse(c) for c in conds) for conds in sites),
+                                          sorted(gs) or "no condition"), instance=inst)
+
+
+class _ShapeWalker(M.Tracer):
+    """collects `X = np.zeros(shape)` under `if X is None` and `assert X.shape == shape`"""
+
+    def stmt(self, st):
+        if isinstance(st, ast.Assert):
+            t = st.test
+            if isinstance(t, ast.Compare) and len(t.ops) == 1 and isinstance(t.ops[0], ast.Eq) \
+                    and isinstance(t.left, ast.Attribute) and t.left.attr == "shape" and isinstance(t.left.value, ast.Name) \
+                    and isinstance(t.comparators[0], ast.Tuple):
+                self.__dict__.setdefault("asserts", []).append(
+                    (t.left.value.id, M.canon_py(t.comparators[0], self.env), tuple(g for _, g in self.guards), st))
+            return
+        if isinstance(st, ast.Assign) and len(st.targets) == 1 and isinstance(st.targets[0], ast.Name) \
+                and isinstance(st.value, ast.Call) and M._callee_name(st.value) in ("zeros", "empty") and st.value.args \
+                and isinstance(st.value.args[0], ast.Tuple):
+            self.__dict__.setdefault("allocs", []).append(
+                (st.targets[0].id, M.canon_py(st.value.args[0], self.env), tuple(g for _, g in self.guards), st))
+            return
+        return M.Tracer.stmt(self, st)
+
+
+def rule_py_default_shape(chk, tree):
+    """`if out is None: out = np.zeros(S)` followed by `assert out.shape == S'` needs S == S'"""
+    empty = M.PySpec({})
+    for rel in (LC, LI):
+        mod = tree.py(rel)
+        for c in mod.body:
+            if not isinstance(c, ast.ClassDef):
+                continue
+            for fn in c.body:
+                if not isinstance(fn, ast.FunctionDef):
+                    continue
+                flags = [a.arg for a in fn.args.args if a.arg in DIRECTION_NAMES]
+                variants = [{}]
+                for f in flags:
+                    variants = [dict(v, **{f: b}) for v in variants for b in (True, False)]
+                for consts in variants:
+                    try:
+                        w = _ShapeWalker(empty, mod, fn, consts, None)
+                    except M.Irreducible:
+                        continue
+                    for (xa, sa, ga, na) in w.__dict__.get("allocs", []):
+                        none_g = "%s is None" % xa
+                        if none_g not in ga:
+                            continue
+                        for (xb, sb, gb, nb) in w.__dict__.get("asserts", []):
+                            if xb != xa or nb.lineno < na.lineno or not set(gb) <= (set(ga) - {none_g}):
+                                continue
+                            tag = "%s.%s%s" % (c.name, fn.name, "[%s]" % ",".join("%s=%s" % kv for kv in sorted(consts.items())) if consts else "")
+                            inst = "%s: default %s" % (tag, xa)
+                            if sa != sb:
+                                chk.violation("py-default-shape", rel, "%s.%s" % (c.name, fn.name), ast.unparse(na), na.lineno,
+                                              "the default `%s` is allocated with shape %s but the function then asserts "
+                                              "`%s.shape == %s`%s: calling it without `%s` fails (or, for a subclass "
+                                              "override, disagrees with the parent) whenever the two differ" % (
+                                                  xa, sa, xa, sb, " for %s" % consts if consts else "", xa), instance=inst)
+                            else:
+                                chk.ok("py-default-shape", inst)
+
+
 def _analyse_own(chk):
     tree = chk.tree
     chk.rule("c-mirror", "C pair: backward linear updates = forward ones with end points exchanged")
@@ -1048,6 +1346,21 @@ def _analyse_own(chk):
     chk.rule("py-clearwindow", "a self-initialising primitive clears only the window it writes; no whole-array clear "
                                "after an earlier write in a composition")
     chk.guard(rule_py_clearwindow, tree)
+    chk.rule("py-einsum-sibling", "an einsum without `->` yields what its explicit siblings (same inputs) yield")
+    chk.rule("py-axis", "numpy-level twins read the same extent from the same axis")
+    chk.rule("py-extent", "a loop over column blocks covers the number of blocks the function asserts")
+    chk.rule("py-guarded-attr", "conditionally built attributes are used only under their build condition")
+    chk.rule("py-default-shape", "default output allocation has the shape the function asserts")
+    chk.guard(rule_py_einsum, tree)
+    chk.guard(rule_py_axis, tree)
+    chk.guard(rule_py_extent, tree)
+    chk.guard(rule_py_guarded_attr, tree)
+    chk.guard(rule_py_default_shape, tree)
+    chk.floor("py-einsum-sibling", 5, "groups of einsum contractions in the twin files")
+    chk.floor("py-axis", 1, "eval_rho_vj_ / eval_vxc_vj_ read nalpha from p_i_qg")
+    chk.floor("py-extent", 1, "FracLaplPlan block caches")
+    chk.floor("py-guarded-attr", 5, "w0_rsp / wm_rsp / l1atco uses in the traced compositions")
+    chk.floor("py-default-shape", 3, "default outputs of multiply_atc_integrals (both classes), spline2conv, project_orb2grid")
     chk.floor("py-clearwindow", 2, "convert_rad2orb_ window + the repeated onsite calls of project_grid2orb")
     chk.guard(rule_py_select, tree)
     chk.guard(rule_py_branch, tree)
@@ -1219,6 +1532,25 @@ def mutants(tree):
                "p_uq[:, offset : offset + nalpha] = 0.0", "p_uq[:] = 0.0", expect="py-clearwindow"),
         Mutant("convert_rad2orb_ clears the first nalpha columns instead of its window", LC,
                "p_uq[:, offset : offset + nalpha] = 0.0", "p_uq[:, 0:nalpha] = 0.0", expect="py-clearwindow"),
+        # ---- round 11: reverting the fixes of defects found in the unpatched tree
+        Mutant("revert e28697a: implicit-mode einsum in get_features_and_occ_derivs", NG,
+               'np.einsum("xg,xg->g", rho_in[1:4], orb_rho_in[1:4])', 'np.einsum("xg,xg", rho_in[1:4], orb_rho_in[1:4])',
+               expect="py-einsum-sibling"),
+        Mutant("revert b597669: eval_vxc_vj_ reads nalpha from axis 1", PL,
+               "        nalpha = p_i_qg[0].shape[0]\n        for i in range(len(p_i_qg)):\n            vf_qg[:nalpha] +=",
+               "        nalpha = p_i_qg[0].shape[1]\n        for i in range(len(p_i_qg)):\n            vf_qg[:nalpha] +=",
+               expect="py-axis"),
+        Mutant("revert af610ee: _cache_ld_vectors loops over nk1", PL,
+               "        for i in range(self.settings.nd1):\n            self._cached_ld_data.append",
+               "        for i in range(self.settings.nk1):\n            self._cached_ld_data.append", expect="py-extent"),
+        Mutant("revert b0e71ce: w0_rsp built only when n0 > 0", LI,
+               "        if self._n0 > 0 or self._n1 > 0:\n", "        if self._n0 > 0:\n", expect="py-guarded-attr"),
+        Mutant("revert 3f6398e: K default output allocated in the input basis", LC,
+               "output = np.zeros((atco_out.nao, self.nalpha))", "output = np.zeros((atco_inp.nao, self.nalpha))",
+               expect="py-default-shape"),
+        Mutant("parent default output allocated with the wrong width", LC,
+               "output = np.zeros((self.atco_inp.nao, self.nalpha))", "output = np.zeros((self.atco_inp.nao, self.nbeta))",
+               expect="py-default-shape"),
         # ---- Python compositions
         Mutant("swap call order in spline2conv", LI,
                "            self._orb2spline_(\n                self.l1atco,\n                f_arlpq,\n                f1_uq,\n"
